@@ -54,6 +54,10 @@ func c06Check(c stage.Cfg) func(o *obs.Obs) string {
 						ok = true
 					}
 				}
+				if ok && cancelled && c.Cap == 0 && o.Sim && o.Has("in-closed") && got[0] != fmt.Sprint(foldAff(o.N("sent"))) {
+					// unbuffered input: every completed send was taken by the stage, and what it has taken is in the value it delivers
+					return fmt.Sprintf("%s/prefix|cancelled: Fold took %d elements from its unbuffered input and delivered %v, the fold of those elements is %v", tag, o.N("sent"), got, foldAff(o.N("sent")))
+				}
 				if !ok {
 					return fmt.Sprintf("%s/prefix|Fold delivered %v: not the left fold of the input (cancelled=%v, full fold %v)", tag, got, cancelled, foldAff(c.K))
 				}
